@@ -80,9 +80,12 @@ def gen_seq(rng, kind, nops):
                 ops.append("%s %d %s" % (rng.choice(["find", "contains", "count", "at"]), a, k))
             elif q < 0.68:
                 ops.append("%s %d" % (rng.choice(["size", "empty", "iter"]), a))
-            elif q < 0.72:
+            elif q < 0.70:
                 ops.append("clear %d" % a)
-            elif q < 0.82 and state[src] == "obj" and state[a] == "obj":
+            elif q < 0.76:
+                lo = rng.randint(0, 3)
+                ops.append("eraserange %d %d %d" % (a, lo, lo + rng.randint(0, 3)))        # erase(first, last) on object_range(), up to and past end()
+            elif q < 0.84 and state[src] == "obj" and state[a] == "obj":
                 ops.append("%s %d %d" % (rng.choice(["merge", "mergeupd"]), a, src))
             else:
                 items = []
@@ -210,7 +213,9 @@ CATALOGUE = [None, True, False, 0, 1, -1, 5, 2 ** 63 - 1, 2 ** 63, 2 ** 64 - 1, 
              ("d", bits(float(2 ** 63))), ("d", 0x7ff8000000000000), ("e", 0x3c00), ("e", 0x4000), b"", b"a", b"b", b"1", b"a long string kept on the heap, longer than the small buffer",
              Tagged("bigint", b"1"), Tagged("bigint", b"5"), Tagged("bigint", b"18446744073709551616"), Tagged("bigint", b"-1"), Tagged("bigdec", b"1.0"), Tagged("bigdec", b"1.5"),
              Tagged("datetime", b"a"), ("b", b""), ("b", b"\x01"), Tagged("base64", ("b", b"\x01")), [], [1], [1, 2], [2], [[1]], Obj([]), Obj([(b"a", 1)]), Obj([(b"a", 2)]),
-             Obj([(b"a", 1), (b"b", 2)]), Obj([(b"b", 2)])]
+             Obj([(b"a", 1), (b"b", 2)]), Obj([(b"b", 2)]),
+             # member names ordered one way and member values the other, at the first and at a later member
+             Obj([(b"b", 1)]), Obj([(b"a", 2), (b"c", 0)]), Obj([(b"b", 1), (b"c", 5)]), Obj([(b"a", [2])]), Obj([(b"b", [1])]), Obj([(b"a", 1), (b"c", 1)]), Obj([(b"a", 1), (b"b", 0)])]
 
 
 def num_value(v):
